@@ -6,6 +6,7 @@ import Flowjaxv.Proofs.LogDet
 import Flowjaxv.Proofs.NetLawful
 import Flowjaxv.Proofs.Flows
 import Flowjaxv.Proofs.TriangularGen
+import Flowjaxv.Proofs.PermGen
 /-!
 # C01 — every bijection is invertible: inverse undoes transform, both ways
 
@@ -608,5 +609,38 @@ theorem gen_triangular_instance :
   rw [TriGenPf.gen_toBij_eq]; exact triangular_instance
 
 end TriangularGen
+
+section PermGen
+/-! ## Permute REGENERATED (`Gen/PermGen.lean`): lawfulness of the generated methods -/
+open PermPrims Gen.PermGen
+
+/-- the generated `Permute` of an accepted permutation array (any rank ≥ 1, any shape) is a lawful bijection of the arrays of that
+shape: both maps keep the shape and the size, both round trips are the identity, and `…_and_log_det` returns the plain point with
+log-det `0`. -/
+theorem gen_permute_lawful (p : IArr) (hwf : p.data.length = prod p.shape) (hne : p.shape ≠ []) {s : Permute}
+    (h : Permute.init p = .ok s) (x : FArr ℝ) (hx : x.shape = p.shape) (hxl : x.data.length = p.data.length) :
+    (s.transform x).shape = p.shape ∧ (s.transform x).data.length = p.data.length ∧
+    (s.inverse x).shape = p.shape ∧ (s.inverse x).data.length = p.data.length ∧
+    (s.inverse (s.transform x)).data = x.data ∧ (s.transform (s.inverse x)).data = x.data ∧
+    s.transform_and_log_det x = (s.transform x, 0) ∧ s.inverse_and_log_det x = (s.inverse x, 0) := by
+  obtain ⟨hP, _, hf, hfs, hi, his, h1, h2⟩ := PermGenPf.gen_permute_eq_model p hwf hne h x hx
+  obtain ⟨_, _, _, _, hi', _⟩ := PermGenPf.gen_permute_eq_model p hwf hne h (s.transform x) hfs
+  obtain ⟨_, _, hf', _⟩ := PermGenPf.gen_permute_eq_model p hwf hne h (s.inverse x) his
+  have hl : x.data.length = (p.data.map Int.toNat).length := by simpa using hxl
+  refine ⟨hfs, ?_, his, ?_, ?_, ?_, h1, h2⟩
+  · rw [hf]; simp [PermModel.fwd]
+  · rw [hi]; simp [PermModel.inv, PermModel.fwd, PermModel.argsort]
+  · rw [hi', hf]; exact PermModel.inv_fwd _ hP _ hl
+  · rw [hf', hi]; exact PermModel.fwd_inv _ hP _ hl
+
+/-- non-vacuity: a 2 × 3 permutation array -/
+theorem gen_permute_lawful_instance :
+    ∃ s, Permute.init ⟨[2, 3], [5, 0, 3, 1, 4, 2]⟩ = .ok s ∧
+      (s.inverse (s.transform ⟨[2, 3], [1, 2, 3, 4, 5, (6 : ℝ)]⟩)).data = [1, 2, 3, 4, 5, 6] := by
+  obtain ⟨s, hs⟩ := (PermGenPf.gen_init_accepts_iff ⟨[2, 3], [5, 0, 3, 1, 4, 2]⟩).mpr
+    ((ParamsPf.permuteRejects_iff _).mpr (by decide))
+  exact ⟨s, hs, (gen_permute_lawful _ (by decide) (by decide) hs ⟨[2, 3], [1, 2, 3, 4, 5, 6]⟩ rfl rfl).2.2.2.2.1⟩
+
+end PermGen
 
 end C01
